@@ -257,6 +257,8 @@ func (c *pathParser) addSeg(segString []byte) error {
 			c.currentY = c.pathStartY
 			c.inPath = false
 		}
+		c.lastKey = op
+		return nil
 	case 'm':
 		rel = true
 		fallthrough
@@ -386,7 +388,12 @@ func (c *pathParser) addSeg(segString []byte) error {
 		}
 	default:
 		logger.WarningLogger.Println("Ignoring svg command " + string(op))
+		c.lastKey = op
+		return nil
 	}
+	// a drawing command after a closepath starts a new sub-path (at the
+	// same initial point), which a later closepath has to close
+	c.inPath = true
 	// So we know how to extend some segment types
 	c.lastKey = op
 	return nil
